@@ -202,7 +202,7 @@ def trace_validation(ctx, pid, quick):
         ctx.coverage.get('recorded_events_matched', 0) + matched
     ctx.traces_validated(total)
     # ---- binding controls ----
-    if len(good) < 3 and (ctx.violations or ctx.divergences):
+    if ctx.violations or ctx.divergences:
         ctx.notes.append('binding controls skipped: recorded traces were '
                          'rejected (see violations / divergences)')
         return
